@@ -176,6 +176,11 @@ Theorem C08_preset_twice_is_once : forall o p, wf_dict p = true -> mix (mix o p)
 Proof. exact mix_idem. Qed.
 Print Assumptions C08_preset_twice_is_once.
 
+(** pre-set options equal to the caller's own change nothing *)
+Theorem C08_overlay_with_itself : forall o, wf_dict o = true -> mix o o = o.
+Proof. exact mix_self. Qed.
+Print Assumptions C08_overlay_with_itself.
+
 (** a member of a section both sides have is looked up in the merge of the two sections *)
 Theorem C08_section_member : forall k k2 a b sa sb,
   wf_json (JObj b) = true -> forallb is_name k = true ->
